@@ -82,6 +82,18 @@ type Cond struct {
 	True bool      // edge taken: true branch
 	At   *ssa.BasicBlock
 	Idx  int // position of At on the path the condition was read from (Path.Conds)
+	// Chain: the condition was tested inside a private helper reached through these call
+	// sites (outermost first); its values are read in the outer function's terms with Path.
+	Chain []*ssa.Call
+}
+
+// Path: access path of a value of the function that tested the condition, in
+// the terms of the function the condition list belongs to.
+func (c Cond) Path(v ssa.Value) string {
+	if len(c.Chain) > 0 {
+		return PathOfChain(v, c.Chain)
+	}
+	return PathOf(v)
 }
 
 // Guards returns the branch conditions that necessarily hold when target is
